@@ -37,9 +37,21 @@ def within(d, c):
 class P(Prop):
     id = "C06"
     design_ref = "DESIGN.md section 5, C06; appendix A.2"
-    theorems = []
+    M = "TracklibVerif.Props.C06"
+    theorems = [
+        (M, "TV.C06.forward_invariant", "the loop invariants of run_routing_forward (appendix A.2) are preserved by one iteration (pop the minimum, settle, relax NEXT_EDGES)"),
+        (M, "TV.C06.forward_correct", "after run_routing_forward(s) every label is the minimum weight over permitted walks; unlabelled (-1) iff no walk"),
+        (M, "TV.C06.shortest_distance_correct", "shortest_distance(s,t) (run stopped when t is popped) = the true distance; sentinel iff t unreachable"),
+        (M, "TV.C06.shortest_distance_cut", "shortest_distance(s,t,cut) = the true distance whenever it is <= cut; sentinel whenever t is unreachable"),
+        (M, "TV.C06.shortest_distance_list_correct", "shortest_distance(s) list form: per node in insertion order the true distance, or none (1e300) iff unreachable"),
+        (M, "TV.C06.cutoff_entries", "output_dict entries of run_routing_forward(s,cut) = exactly the nodes with true distance <= cut, with that distance"),
+        (M, "TV.C06.cutoff_table", "all_shortest_distances(cut) maps (s,v) to y iff s is a node, y is the true distance s->v and y <= cut"),
+        (M, "TV.C06.prepared_correct", "prepare(cut) + prepared_shortest_distance(s,v): stored value = true distance exactly for pairs within the cut-off"),
+        (M, "TV.C06.prepared_twice_correct", "a second prepare(cut2) on the same DISTANCES: stored exactly for pairs within cut1 or cut2, always the true distance"),
+    ]
     partial = []
-    open_statements = []
+    open_statements = ["priority_dict's heap with lazy deletion is not proved to extract the minimum (priority, key); it is modelled as such and exercised by the correspondence",
+                       "weights are elements of a linearly ordered additive commutative monoid in the theorems; float rounding of sums of non-dyadic weights is outside them"]
     modelled = ("Network.addEdge (NEXT_EDGES by orientation), run_routing_forward in Dijkstra mode (pop by (poids, node id), stop tests "
                 "before recording, 'other end' rule, visite guard, strict < relaxation, output_dict), shortest_distance (pair and list form), "
                 "all_shortest_distances, prepare, prepared_shortest_distance; priority_dict.pop_smallest as 'extract the minimum (priority, key)'")
